@@ -56,16 +56,31 @@ def check_file(ctx, r, idx, ml, bd_path):
 		ddf = data_dump.DATADumpFile(bio)
 	objs = [msgs.to_real(m) for m in ml]
 	try:
-		if n >= 3 and r.random() < 0.35:
+		if n >= 3 and r.random() < 0.4:
 			# appends interleaved with reads through the same object: a read leaves the position
-			# somewhere inside the file, what is appended afterwards must still end up behind everything
-			k1 = r.randrange(1, n - 1)
-			k2 = r.randrange(k1 + 1, n)
-			ddf.append_all(objs[:k1])
-			g = ddf.parse_msg(r.randrange(k1))
-			ddf.append_all(objs[k1:k2])
-			g = ddf.parse_all(r.randrange(k2), 1)
-			ddf.append_all(objs[k2:])
+			# somewhere inside the file (or stops before the end), what is appended afterwards must
+			# still end up behind everything
+			cutsn = sorted(r.sample(range(1, n), min(n - 1, r.randint(1, 3))))
+			done = 0
+			for k in cutsn + [n]:
+				ddf.append_all(objs[done:k]) if r.random() < 0.6 else [ddf.append_msg(o) for o in objs[done:k]]
+				done = k
+				if k == n:
+					break
+				kind = r.randrange(6)
+				if kind == 0:
+					g = ddf.parse_msg(r.randrange(k + 1))
+				elif kind == 1:
+					g = ddf.parse_all(r.randrange(k + 1), r.choice((1, 1, 2, k)))
+				elif kind == 2:
+					g = ddf.parse_all(None, r.randint(1, k))        # no skip: stops inside the file
+				elif kind == 3:
+					g = ddf.parse_all(0, r.randint(1, k))
+				elif kind == 4:
+					g = ddf.parse_all()
+				else:
+					g = ddf.parse_all(r.randrange(k + 1))
+				ctx.count("read_kind_between_appends:%d" % kind)
 			ctx.count("files_with_reads_between_appends")
 		elif by_path and n >= 2 and r.random() < 0.5:
 			# written in two sessions: the capture is re-opened by path and appended to
@@ -125,8 +140,19 @@ def check_file(ctx, r, idx, ml, bd_path):
 				ctx.violation("read", dict(w, index = i), what = "parse_msg(%d) beyond the end returned %r" % (i, g))
 				return
 		grid = sorted({0, 1, 2, n - 1, n, n + 1, r.randrange(n + 2)} - {-1})
+		counts = [None, 1, 2, n, n + 1, r.randint(1, n + 2)]
+		if n > 260:
+			# long captures: indices, skips and counts beyond 255 / 256 / 257
+			grid = sorted(set(grid) | {255, 256, 257, n - 257})
+			counts += [255, 256, 257, 258, n - 1]
+			for i in (255, 256, 257, 258, n - 2):
+				g = ddf.parse_msg(i)
+				ctx.count("indexed_reads_beyond_255")
+				if g is None or g is False or msgs.diff(ml[i], msgs.from_real(g)):
+					ctx.violation("read", dict(w, index = i), what = "parse_msg(%d) does not return the stored message" % i)
+					return
 		for skip in [None] + [s for s in grid if s >= 0]:
-			for count in (None, 1, 2, n, n + 1, r.randint(1, n + 2)):
+			for count in counts:
 				if count is not None and count < 1:
 					continue
 				g = ddf.parse_all(skip, count)
@@ -204,7 +230,9 @@ def check_file(ctx, r, idx, ml, bd_path):
 
 def run(ctx):
 	ctx.rule = ("lists of 0..40 reference-valid messages (both directions, v0/v1, every modulation, NOPE) written by the real "
-		"append_msg/append_all by path and by file object; full read, every index 0..n+2, a (skip, count) grid around 0, n-1, n, n+1; "
+		"append_msg/append_all by path and by file object, in one go, re-opened, or with reads of every kind (indexed, skip/count, "
+		"count without skip, full) between up to four appends; every 40th capture holds 261..700 records (indices, skips and counts "
+		"around 256); full read, every index 0..n+2, a (skip, count) grid around 0, n-1, n, n+1; "
 		"truncation at every byte offset for files up to 2.5 kB (thorough: 8 kB), at +-4 of every record boundary plus 60 random "
 		"offsets for longer ones; distinct = distinct files by content hash; non-trivial = files with at least one message")
 	bd = os.path.join(common.VERIF, "build", "c15.%d" % os.getpid())
@@ -214,9 +242,16 @@ def run(ctx):
 		for i in range(ctx.scale(160, 12000)):
 			k = r.random()
 			n = 0 if k < 0.05 else r.randint(1, 6) if k < 0.6 else r.randint(1, 40)
+			long = (i % 40 == 7)
+			if long:
+				# a long capture of small records (NOPE indications and short bursts)
+				n = r.choice((261, 300, 520, 700))
+				ctx.count("long_captures")
 			ml = []
 			for _ in range(n):
 				m = trxd.rand_msg(r)
+				if long and not m.get("nope") and r.random() < 0.85:
+					m = trxd.rand_rx(r, ver = 1, nope = True)
 				ml.append(m)
 			ctx.seen(hash(tuple(trxd.key(m) for m in ml)), nontrivial = n > 0)
 			check_file(ctx, r, i, ml, bd)
@@ -235,6 +270,8 @@ def run(ctx):
 	ctx.require("slices_compared", 2000)
 	ctx.require("indexed_reads", 1000)
 	ctx.require("files_with_reads_between_appends", 20)
+	ctx.require("long_captures", 2)
+	ctx.require("indexed_reads_beyond_255", 10)
 
 
 def replay(ctx, data):
